@@ -50,12 +50,13 @@ def main():
     ap.add_argument("--tier", default="quick")
     ap.add_argument("--runs", type=int)
     ap.add_argument("--kind", choices=["revert", "patch"])
+    ap.add_argument("--out", help="results file (default selftest/mutants.json); use another one for runs under other VERIF_SEED values")
     ap.add_argument("--jobs", type=int, default=1, help="mutants processed in parallel")
     ap.add_argument("--workers", type=int, default=16, help="worker processes per check run")
     ap.add_argument("--sweep", action="store_true", help="stop each check at the first confirmed violation (no minimisation)")
     a = ap.parse_args()
     results = {}
-    resfile = os.path.join(VERIF, "selftest", "mutants.json")
+    resfile = a.out or os.path.join(VERIF, "selftest", "mutants.json")
     if os.path.exists(resfile):
         results = json.load(open(resfile))
     only = set(a.only.split(",")) if a.only else None
